@@ -98,10 +98,10 @@ Lemma splitHostmask_join n u h :
   mem BANG u = false -> mem BANG h = false -> mem ATC h = false ->
   splitHostmask (joinHostmask n u h) = Some (n, u, h).
 Proof.
-  intros H1 H2 H3. unfold splitHostmask, joinHostmask. cbn [app].
-  rewrite rsplit1_last.
-  - rewrite rsplit1_last by exact H3. reflexivity.
-  - rewrite mem_app. cbn. rewrite H1. cbn. change (N.eqb BANG ATC) with false. cbn. exact H2.
+  intros H1 H2 H3. unfold splitHostmask, joinHostmask.
+  replace (n ++ [BANG] ++ u ++ [ATC] ++ h) with ((n ++ BANG :: u) ++ ATC :: h)
+    by (rewrite <- app_assoc; reflexivity).
+  rewrite rsplit1_last by exact H3. rewrite rsplit1_last by exact H1. reflexivity.
 Qed.
 Lemma at_mid_app u h : u <> [] -> h <> [] -> at_mid (u ++ ATC :: h) = true.
 Proof.
